@@ -128,6 +128,7 @@ type ostack struct {
 	nops  int
 	rng   *vio.RNG
 	bopen bool
+	uses  int
 }
 
 func raw(k []byte) []byte { return append([]byte{stPrefix}, k...) }
@@ -148,6 +149,63 @@ func newStack(kv *keyVariant, s0 []string, rng *vio.RNG) *ostack {
 }
 
 func (s *ostack) close() { s.ldb.Close() }
+
+// Stack pool.  Building the real stack costs several ms (a 4 MB block-layer buffer, a LevelDB instance with its
+// goroutines), so a stack is reused for up to 200 edges: both layers are Reset(), checked to be empty (a Reset that
+// leaves cells behind is reported as "unclean", never hidden), the store's ST_STORAGE range is emptied and re-filled.
+var stackPool = make(chan *ostack, 64)
+
+func getStack(kv *keyVariant, s0 []string, rng *vio.RNG) (*ostack, string) {
+	var st *ostack
+	select {
+	case st = <-stackPool:
+	default:
+		return newStack(kv, s0, rng), ""
+	}
+	st.uses++
+	if st.uses > 200 {
+		st.close()
+		return newStack(kv, s0, rng), ""
+	}
+	st.kv, st.rng, st.nops, st.bopen = kv, rng, 0, false
+	st.ov.Reset()
+	st.cdb.Reset()
+	unclean := ""
+	if st.ov.GetWriteSet().Len() != 0 {
+		unclean = "OverlayDB.Reset left cells behind"
+	}
+	st.cdb.Commit()
+	if unclean == "" && st.ov.GetWriteSet().Len() != 0 {
+		unclean = "CacheDB.Reset left cells behind"
+	}
+	if unclean != "" {
+		st.close()
+		return newStack(kv, s0, rng), unclean
+	}
+	it := st.ldb.NewIterator([]byte{stPrefix})
+	var ks [][]byte
+	for ok := it.First(); ok; ok = it.Next() {
+		ks = append(ks, append([]byte{}, it.Key()...))
+	}
+	it.Release()
+	for _, k := range ks {
+		vio.Must(st.ldb.Delete(k))
+	}
+	for i, c := range s0 {
+		if c != "U" {
+			vio.Must(st.ldb.Put(raw(kv.keys[i]), valBytes[c]))
+		}
+	}
+	return st, ""
+}
+
+func putStack(st *ostack) {
+	select {
+	case stackPool <- st:
+	default:
+		st.close()
+	}
+}
 
 func (s *ostack) kidx(k []byte) int {
 	for i, x := range s.kv.keys {
@@ -437,9 +495,18 @@ func overlayEdges(k int, mode string) {
 		var got interface{}
 		var post opost
 		var bad string
+		unclean := ""
 		pan := vio.Safe(func() {
-			st := newStack(kv, e.H.S0, vio.NewRNG(salt))
-			defer st.close()
+			var st *ostack
+			st, unclean = getStack(kv, e.H.S0, vio.NewRNG(salt))
+			ok := false
+			defer func() {
+				if ok {
+					putStack(st)
+				} else {
+					st.close()
+				}
+			}()
 			for _, h := range e.H.Ops {
 				st.apply(h.Op, h.A, h.V)
 			}
@@ -447,6 +514,7 @@ func overlayEdges(k int, mode string) {
 				got = st.apply(e.Op, e.A, e.V)
 			}
 			post, bad = st.project()
+			ok = true
 		})
 		var diffs []string
 		if pan != "" {
@@ -454,6 +522,10 @@ func overlayEdges(k int, mode string) {
 		}
 		if bad != "" {
 			diffs = append(diffs, "inconsistent")
+		}
+		if unclean != "" {
+			diffs = append(diffs, "unclean")
+			bad += " " + unclean
 		}
 		if pan == "" {
 			if mode == "edge" && norm(got) != normRaw(e.Obs) {
@@ -511,11 +583,11 @@ var keyPool = []string{"", "\x00", "\x00\x00", "\x05", "a", "a\x00", "ab", "ab\x
 
 func randomVariant(rng *vio.RNG, k int) *keyVariant {
 	p := rng.Perm(len(keyPool))[:k]
-	sort.Ints(p)
 	ks := make([]string, k)
 	for i, j := range p {
 		ks[i] = keyPool[j]
 	}
+	sort.Strings(ks) // Go string order is byte order
 	return newVariant(bs(ks...))
 }
 
